@@ -146,6 +146,37 @@ theorem segment_attributes_legal (numAttr : Int) (bounds : Int × Int × Int × 
   dsimp only
   split <;> exact h
 
+/-- colour_spec: `C k` selects the attribute min(k, numAttr−1) (0 for a negative k) — the value LINE's
+    `_get_attr_index` gives — whatever attribute the pen had before (in particular whatever the mode's
+    default attribute is: 1 of 0..3 on the EGA monochrome SCREEN 10), changes nothing else, and a drawn
+    move that follows carries exactly this attribute -/
+theorem colour_spec (numAttr : Int) (bounds : Int × Int × Int × Int) (pen : Pen) (fl : Flags) (k : Int) :
+    exec (params numAttr bounds) pen fl (.colour k) =
+      .ok { pen with attr := min (numAttr - 1) (max 0 k) } fl [] [] ∧
+    (0 ≤ k → k < numAttr → exec (params numAttr bounds) pen fl (.colour k) = .ok { pen with attr := k } fl [] []) ∧
+    ∀ (g : Bool) (cmd : Cmd), isMoveCmd cmd = true →
+      match exec (params numAttr bounds) { pen with attr := min (numAttr - 1) (max 0 k) } ⟨true, g⟩ cmd with
+      | .ok _ _ evs _ => ∀ e ∈ evs, e.attr = min (numAttr - 1) (max 0 k)
+      | _ => True := by
+  refine ⟨rfl, ?_, ?_⟩
+  · intro h0 h1
+    have : min (numAttr - 1) (max 0 k) = k := by omega
+    simp [exec, params, clampAttr, this]
+  · intro g cmd hm
+    cases cmd <;> simp [isMoveCmd] at hm <;>
+      (simp only [exec, doMove, mkMove]
+       split
+       · rename_i heq
+         split at heq
+         · cases heq
+         · injection heq with h1 h2 h3 h4
+           subst h3
+           intro e he
+           simp at he
+           subst he
+           rfl
+       · trivial)
+
 /-- the unrepaired code stored the number after `C` as it was (`DRAW "C300 R5"`: ValueError from the
     byte matrix, `C255` in a 4-colour mode: pixel value 255) -/
 theorem colour_counterexample :
